@@ -135,7 +135,7 @@ PROPS["C19"] = dict(
 PROPS["C20"] = dict(
     suites=["c20", "c20c", "c20w", "c20x"],
     gen=[("c20", "ServlinVerif/Gen/C20Tables.lean")],
-    lean_modules=["ServlinVerif.Props.C20", "ServlinVerif.Props.C05"],
+    lean_modules=["ServlinVerif.Props.C20", "ServlinVerif.Props.C05", "ServlinVerif.Props.C20Disk"],
     audit="Audit/C20.lean",
     shards={"c20": 1, "c20w": 2, "c20x": 1},
     rule="every status-named constructor found by scanning src/response.rs (executed; exhaustive); every HttpError variant (exhaustive, "
